@@ -146,6 +146,7 @@ class Pool(object):
         for v in versions:
             if v in found:
                 self.workers[v] = Worker(v, found[v])
+        self.started = {v: found[v] for v in self.workers}
         self.budget = budget
         self.stats = {"restarts": 0, "timeouts": 0, "crashes": 0}
         if not any(v in self.workers for v in TARGETS if v in versions) and any(v in TARGETS for v in versions):
